@@ -34,13 +34,28 @@ type raceOp struct {
 
 type raceCase struct {
 	Lists [][]raceOp `json:"lists"`
+	// Shared: input buffers that several goroutines decode from WITHOUT copying (decoding only reads its input, so
+	// sharing a read-only buffer - a cached downlink, a packet fanned out to several workers - is legitimate)
+	Shared []evid.Hex `json:"shared,omitempty"`
 }
+
+var sharedBufs []evid.Hex // set by checkRace for the duration of one case
 
 func genRace(t *rapid.T) raceCase {
 	n := rapid.IntRange(2, 8).Draw(t, "goroutines")
 	var c raceCase
 	// a small pool of key values used by ALL goroutines (sessions of one device group share keys; per-key caches are shared state)
 	pool := []ref.Key{gen.Key(t, "pool0"), gen.Key(t, "pool1")}
+	for i, k := 0, rapid.IntRange(1, 3).Draw(t, "nshared"); i < k; i++ {
+		if rapid.Bool().Draw(t, "sharedframe") {
+			c.Shared = append(c.Shared, gen.DataFrame(t, gen.DataMType(t), gen.DataOpts{MaxFRM: 30}).Encode())
+		} else {
+			// a single MAC command with payload, as handed to MACCommand.UnmarshalBinary
+			up := rapid.Bool().Draw(t, "sharedup")
+			b := gen.CmdBytes(t, "sharedcmd", up, rapid.IntRange(2, 6).Draw(t, "sharedlen"))
+			c.Shared = append(c.Shared, append([]byte{0xfe, map[bool]byte{true: 1, false: 0}[up]}, b...))
+		}
+	}
 	for g := 0; g < n; g++ {
 		var l []raceOp
 		k := rapid.IntRange(3, 14).Draw(t, "ops")
@@ -49,7 +64,7 @@ func genRace(t *rapid.T) raceCase {
 			if rapid.IntRange(0, 2).Draw(t, "sharedkey") != 0 {
 				key = pool[rapid.IntRange(0, 1).Draw(t, "poolidx")]
 			}
-			switch rapid.SampledFrom([]string{"decode", "decode", "mic", "crypt", "lookup", "register", "register", "band", "netid", "yield"}).Draw(t, "op") {
+			switch rapid.SampledFrom([]string{"decode", "decode", "mic", "crypt", "lookup", "register", "register", "band", "netid", "shared", "shared", "yield"}).Draw(t, "op") {
 			case "decode":
 				l = append(l, raceOp{Op: "decode", Frame: gen.AnyFrame(t).Encode()})
 			case "mic":
@@ -65,6 +80,8 @@ func genRace(t *rapid.T) raceCase {
 				l = append(l, raceOp{Op: "band", Band: string(rapid.SampledFrom(bandNames).Draw(t, "band"))})
 			case "netid":
 				l = append(l, raceOp{Op: "netid", Key: key[:]})
+			case "shared":
+				l = append(l, raceOp{Op: "shared", Size: rapid.IntRange(0, len(c.Shared)-1).Draw(t, "sharedidx")})
 			default:
 				l = append(l, raceOp{Op: "yield"})
 			}
@@ -121,6 +138,35 @@ func runList(l []raceOp) []string {
 			e4 := p.DecryptFRMPayload(k)
 			b2, _ := p.MarshalBinary()
 			out = append(out, fmt.Sprintf("crypt %v %v %x %v %v %x", e1, e2, b, e3, e4, b2))
+		case "shared":
+			if o.Size < 0 || o.Size >= len(sharedBufs) {
+				continue
+			}
+			b := []byte(sharedBufs[o.Size]) // no copy: read-only input shared between goroutines
+			if len(b) > 2 && b[0] == 0xfe {
+				// the stream as a whole is framed by the model; each command is decoded from its own sub-slice of the shared buffer
+				up := b[1] == 1
+				rest := b[2:]
+				for len(rest) > 0 {
+					n := 1 + ref.PayloadLen(up, rest[0], nil)
+					if n > len(rest) {
+						break
+					}
+					var m lorawan.MACCommand
+					err := m.UnmarshalBinary(up, rest[:n])
+					enc, _ := m.MarshalBinary()
+					out = append(out, fmt.Sprintf("shared-cmd %v %x", err, enc))
+					rest = rest[n:]
+				}
+				continue
+			}
+			var p lorawan.PHYPayload
+			err := p.UnmarshalBinary(b)
+			if err == nil {
+				_ = p.DecodeFOptsToMACCommands()
+			}
+			enc, _ := p.MarshalBinary()
+			out = append(out, fmt.Sprintf("shared-frame %v %x", err, enc))
 		case "netid":
 			n := lorawan.NetID{o.Key[0], o.Key[1], o.Key[2]}
 			a := lorawan.DevAddr{o.Key[3], o.Key[4], o.Key[5], o.Key[6]}
@@ -151,6 +197,12 @@ func runList(l []raceOp) []string {
 
 func checkRace(c raceCase) evid.Outcome {
 	lorawan.VerifResetMACPayloadRegistry()
+	sharedBufs = c.Shared
+	sharedSnapshot := make([]string, len(c.Shared))
+	for i, b := range c.Shared {
+		sharedSnapshot[i] = b.String()
+	}
+	defer func() { sharedBufs = nil }()
 	results := make([][]string, len(c.Lists))
 	var wg sync.WaitGroup
 	start := make(chan struct{})
@@ -182,6 +234,11 @@ func checkRace(c raceCase) evid.Outcome {
 			}
 		}
 	}
+	for i, b := range c.Shared {
+		if b.String() != sharedSnapshot[i] {
+			return evid.Fail("a read-only input buffer shared by the goroutines was modified by decoding: %s became %s", sharedSnapshot[i], b)
+		}
+	}
 	lorawan.VerifResetMACPayloadRegistry()
 	return evid.Outcome{NonTrivial: regs >= 1 && decodes >= 1, Class: fmt.Sprintf("goroutines=%d", len(c.Lists))}
 }
@@ -190,6 +247,6 @@ func TestRace(t *testing.T) {
 	r := evid.Begin(t, "C10")
 	defer r.Finish()
 	evid.Rapid(r, t, "race-oplists",
-		"rapid, -race build: 2..8 goroutines each run a generated list of 3..14 operations (decode + command decode, set/validate MIC, encrypt/decrypt - two thirds of them with one of two key VALUES shared by all goroutines -, GetMACPayloadAndSize, RegisterProprietaryMACCommand on goroutine-owned CIDs, NetID / DevAddr prefix algebra, band GetConfig + mutations on a local instance, yields) started together; each goroutine's results must equal the same list run alone, and any race-detector report in the process output is reported as a violation by the driver (the detector flags an unsynchronised access pair whenever both execute, not only when they collide). Non-trivial: at least one registration concurrent with a decode.",
+		"rapid, -race build: 2..8 goroutines each run a generated list of 3..14 operations (decode + command decode, set/validate MIC, encrypt/decrypt - two thirds of them with one of two key VALUES shared by all goroutines -, GetMACPayloadAndSize, RegisterProprietaryMACCommand on goroutine-owned CIDs, NetID / DevAddr prefix algebra, decoding frames and single MAC commands from read-only buffers SHARED by all goroutines without copying, band GetConfig + mutations on a local instance, yields) started together; each goroutine's results must equal the same list run alone, and any race-detector report in the process output is reported as a violation by the driver (the detector flags an unsynchronised access pair whenever both execute, not only when they collide). Non-trivial: at least one registration concurrent with a decode.",
 		1500, 60000, genRace, checkRace)
 }
